@@ -99,13 +99,47 @@ def preamble(ctx, drop=()):
 _TOK = None
 
 
+def strip_stores(text):
+    """Replace every (store A i v) by A (recursively): the skeleton of a formula up to heap updates."""
+    out = []
+    i, n = 0, len(text)
+
+    def sexpr_end(k):
+        # k at the start of an s-expression (atom or parenthesised); returns index just past it
+        if text[k] != "(":
+            while k < n and text[k] not in " ()":
+                k += 1
+            return k
+        d = 0
+        while k < n:
+            if text[k] == "(":
+                d += 1
+            elif text[k] == ")":
+                d -= 1
+                if d == 0:
+                    return k + 1
+            k += 1
+        return n
+    while i < n:
+        if text.startswith("(store ", i):
+            a0 = i + 7
+            a1 = sexpr_end(a0)
+            end = sexpr_end(i)
+            out.append(strip_stores(text[a0:a1]))
+            i = end
+        else:
+            out.append(text[i])
+            i += 1
+    return "".join(out)
+
+
 def _tokens(text):
     import collections
     import re as _re
-    return collections.Counter(_re.findall(r"[A-Za-z_][A-Za-z_0-9.]*", _re.sub(r"![0-9]+", "", text)))
+    return collections.Counter(_re.findall(r"[A-Za-z_][A-Za-z_0-9.]*", _re.sub(r"![0-9]+", "", strip_stores(text))))
 
 
-def slim_hyps(ob):
+def slim_hyps(ob, small=1200, sim=0.6):
     """Goal-directed selection of hypotheses (dropping hypotheses is always sound): keep the small ones and those
     that look like the goal (same shape over another heap version) — the typical 'this fact survives that
     heap update' obligation then becomes a small query."""
@@ -116,13 +150,13 @@ def slim_hyps(ob):
         if h.s in seen:
             continue
         seen.add(h.s)
-        if len(h.s) < 700:
+        if len(h.s) < small or getattr(h, "conj", None) == "cut":
             keep.append(h)
             continue
         t = _tokens(h.s)
         inter = sum((t & g).values())
         union = sum((t | g).values())
-        if union and inter / union >= 0.6:
+        if union and inter / union >= sim:
             keep.append(h)
     return keep
 
@@ -130,7 +164,15 @@ def slim_hyps(ob):
 def query_text(ctx, ob, slim=False, drop=()):
     parts = [preamble(ctx, drop)]
     seen = set()
-    for h in (slim_hyps(ob) if slim else ob.hyps):
+    hyps = ob.hyps
+    if slim == "tight":
+        # "this fact survives that heap update": the same-shaped hypotheses plus the small ones only
+        hyps = slim_hyps(ob, small=450, sim=0.85)
+    elif slim == 2:
+        hyps = slim_hyps(ob, small=4000, sim=0.45)
+    elif slim:
+        hyps = slim_hyps(ob)
+    for h in hyps:
         if h.s in seen:
             continue
         seen.add(h.s)
@@ -342,6 +384,9 @@ def prove_item(kind, name, tier, seed, known=()):
         if ob.kind == "canary":
             return ob, smt.solve(text, 2, order=("z3-new",))
         alts = [("slim", query_text(ctx, ob, slim=True))]
+        if len(ob.hyps) > 60:
+            alts.append(("slim2", query_text(ctx, ob, slim=2)))
+            alts.append(("tight", query_text(ctx, ob, slim="tight")))
         if ctx.tags:
             # the two halves of a comprehension characterisation (element -> source, source -> element) feed each
             # other's triggers; most obligations need only one of them
